@@ -16,6 +16,7 @@ import (
 	_ "verifengine/props/c08"
 	_ "verifengine/props/c09"
 	_ "verifengine/props/c10"
+	_ "verifengine/props/c11"
 	_ "verifengine/props/c12"
 	_ "verifengine/props/c13"
 	_ "verifengine/props/c14"
